@@ -132,7 +132,10 @@ def parse_errors(stderr, gen_text, fname):
         locs = [int(x) for x in re.findall(r"-->\s*\S+?:(\d+):\d+", b)]
         locs += [int(x) for x in re.findall(r"^\s*(\d+)\s*\|", b, re.M)]
         fn = None
-        for l in locs:
+        marker_line = gen_text[: gen_text.find("// ===== unit text")].count("\n")
+        # prefer a location inside the unit text: the first location of a failed trait-level
+        # postcondition is the trait declaration in the prelude
+        for l in [x for x in locs if x > marker_line] + [x for x in locs if x <= marker_line]:
             cands = [q for (s, e, q) in idx if s <= l <= e]
             if cands:
                 fn = cands[-1]
@@ -179,7 +182,7 @@ def breakdown(js, crate):
 
 def run_unit(unit_name, template_rel, variant):
     """returns result dict for one unit-variant"""
-    tag = unit_name + ("" if not variant else "." + "_".join(variant.values()))
+    tag = unit_name + ("" if not variant else "." + "_".join(list(variant.values())[:2]))
     crate = re.sub(r"\W", "_", tag)
     res = dict(unit=tag, status="ok", functions={}, failures=[], undecided=None, canary=None, stats=None,
                solver_s=0.0, template=template_rel, variant=variant)
